@@ -161,6 +161,11 @@ func runTxn(w *world.World, pool []*model.Pattern, t *TxnProg, each func(i int, 
 func runC02(src sim.Source, o Opts) *Result {
 	res := newResult()
 	cfg := world.DrawCfg(src)
+	if src.Intn("limits", 5) == 4 {
+		// configured limits at the sizes the generated patterns actually have (names are 2 bytes, 3-4 in odd pools)
+		cfg.MaxParams = sim.Pick(src, "maxparams", []int{0, 1, 2, 3})
+		cfg.MaxKeyBytes = sim.Pick(src, "maxkeybytes", []int{0, 2, 3, 4})
+	}
 	pc := world.PoolCfg{Size: 3 + src.Intn("poolsize", 10), MaxSegs: 1 + src.Intn("maxsegs", 5), Hosts: src.Intn("hosts", 3) == 2,
 		WildHeavy: sim.Bool(src, "wildheavy"), TSlash: src.Intn("tslash", 4), Fanout: src.Intn("fanout", 12) == 11, Deep: src.Intn("deep", 12) == 11, Odd: src.Intn("oddbytes", 5) == 4}
 	pool := world.GenPool(src, pc)
